@@ -291,6 +291,6 @@ def bounded_checks(tier, seed):
         raise RuntimeError("bounded C18 sweep crashed: " + r.stderr[-1500:])
     d = json.loads(r.stdout.strip().splitlines()[-1])
     return [{"check": "dataclass_hierarchies", "tool": "generated dataclass definitions: static load vs. executing dataclasses (inspect.signature of the generated __init__)",
-             "bound": "15 field forms x 5 decorator forms, 1-2 fields per class; 2-level hierarchies (7x7 forms, 4x4 decorators, re-declared or new field); special shapes",
+             "bound": "15 field forms x 5 decorator forms, 1-2 fields per class; 2-level hierarchies (7x7 forms, 4x4 decorators, re-declared or new field); special shapes incl. a plain class between two dataclasses",
              "cases": d["cases"], "rejected_by_cpython": d["rejected_by_cpython"], "failing": len(d["bad"]), "wall_s": round(time.time() - t0, 1),
              "class_match": True, "violations": d["bad"]}]
